@@ -676,6 +676,17 @@ func (e *Env) evalCall(x ECall) TV {
 			return TV{vc.strLen(e.asTerm(v)), tInt}
 		}
 		efail("len of %s", v.T)
+	case "substr":
+		// substr(s, lo, hi): what the slice expression s[lo:hi] of a string yields in the code (same uninterpreted symbol)
+		if len(x.Args) != 3 {
+			efail("substr(s, lo, hi)")
+		}
+		sv := e.eval(x.Args[0])
+		if sv.T.K != KStr {
+			efail("substr of %s", sv.T)
+		}
+		vc.declareOnce("substr", "(declare-fun substr (Int Int Int) Int)\n(assert (forall ((s! Int) (a! Int) (b! Int)) (! (=> (and (<= 0 a!) (<= a! b!) (<= b! (strlen s!))) (= (strlen (substr s! a! b!)) (- b! a!))) :pattern ((substr s! a! b!)))))")
+		return TV{app(SInt, "substr", e.asTerm(sv), e.asTerm(e.eval(x.Args[1])), e.asTerm(e.eval(x.Args[2]))), sv.T}
 	case "cap":
 		v := e.eval(x.Args[0])
 		if sv, ok := v.V.(SliceVal); ok {
